@@ -237,6 +237,10 @@ def check_r18a(repo, rep, uni, local):
     return n
 
 
+FACTORY_TAKERS = ('functools.partial', 'builtins.map',
+                  'itertools.starmap', 'functools.cmp_to_key')
+
+
 def instantiation_sites(repo, uni, ci):
     """(module, call node, where) for every constructor call of ci; where is
     'evaluation' | 'construction' | 'module-level' | 'default-argument'."""
@@ -244,12 +248,28 @@ def instantiation_sites(repo, uni, ci):
     dotted = ci.dotted
     for mod in repo.modules.values():
         for node in ast.walk(mod.tree):
-            if not isinstance(node, ast.Call):
+            if isinstance(node, ast.Call):
+                ref = node.func
+            elif isinstance(node, (ast.Name, ast.Attribute)) and \
+                    isinstance(node.ctx, ast.Load):
+                # the class handed on as a factory: key=Cls,
+                # functools.partial(Cls, ...), map(Cls, ...): whoever
+                # receives it instantiates it there
+                par = getattr(node, '_parent', None)
+                if isinstance(par, ast.keyword):
+                    if par.arg != 'key':
+                        continue
+                elif not (isinstance(par, ast.Call) and par.args and
+                          par.args[0] is node and repo.resolve(
+                              mod, par.func) in FACTORY_TAKERS):
+                    continue
+                ref = node
+            else:
                 continue
-            d = repo.resolve(mod, node.func)
+            d = repo.resolve(mod, ref)
             if d != dotted and not (
-                    mod is ci.module and isinstance(node.func, ast.Name)
-                    and node.func.id == ci.qualname.split('.')[-1]):
+                    mod is ci.module and isinstance(ref, ast.Name)
+                    and ref.id == ci.qualname.split('.')[-1]):
                 continue
             f = model.enclosing(node, (ast.FunctionDef,
                                        ast.AsyncFunctionDef))
